@@ -65,6 +65,15 @@ func (n *noAlgSigner) Key() key.Key {
 	return out
 }
 
+// failSigner / failMacer: primitives that refuse (an HSM that is offline, a revoked key)
+type failSigner struct{ key.Signer }
+
+func (failSigner) Sign([]byte) ([]byte, error) { return nil, fmt.Errorf("signer unavailable") }
+
+type failMacer struct{ key.MACer }
+
+func (failMacer) MACCreate([]byte) ([]byte, error) { return nil, fmt.Errorf("macer unavailable") }
+
 type recVerifier struct {
 	key.Verifier
 	log *[][]byte
@@ -727,6 +736,58 @@ func execMsg(op string, a []string) string {
 		h := f[0]
 		args := &msgArgs{kind: h[0], mode: h[1], ext: unhxOpt(h[2]), recips: h[3], fields: f[1:], warm: true}
 		return dispatchMode(args, true)
+	case "msg.failsign":
+		// msg.failsign <kind> <ext> | <payload1> | <payload2> | <key>: a message object that holds a good message gets another
+		// payload and is signed / MACed again by a primitive that fails.  Specification: the failed call does not leave a
+		// message behind that nobody authenticated — what the object emits afterwards (if anything) still verifies.
+		f := splitAll(a)
+		kind, ext := f[0][0], unhxOpt(f[0][1])
+		p1, p2 := unhxOpt(f[1][0]), unhxOpt(f[2][0])
+		k := keyFromToks(f[3])
+		switch kind {
+		case "sign1":
+			sg, e1 := k.Signer()
+			v, e2 := k.Verifier()
+			if e1 != nil || e2 != nil {
+				return "err key"
+			}
+			m := &cose.Sign1Message[[]byte]{Payload: p1}
+			out1, err := m.SignAndEncode(sg, ext)
+			if err != nil {
+				return "err"
+			}
+			m.Payload = p2
+			if m.WithSign(&failSigner{Signer: sg}, ext) == nil {
+				return "FAILING-SIGNER-IGNORED"
+			}
+			if out2, err := m.MarshalCBOR(); err == nil && !bytes.Equal(out2, out1) {
+				if _, err := cose.VerifySign1Message[[]byte](v, out2, ext); err != nil {
+					return "EMITS-A-MESSAGE-NOBODY-SIGNED " + hx(out2)
+				}
+			}
+			return "ok"
+		case "mac0":
+			mc, e1 := k.MACer()
+			if e1 != nil {
+				return "err key"
+			}
+			m := &cose.Mac0Message[[]byte]{Payload: p1}
+			out1, err := m.ComputeAndEncode(mc, ext)
+			if err != nil {
+				return "err"
+			}
+			m.Payload = p2
+			if m.Compute(&failMacer{MACer: mc}, ext) == nil {
+				return "FAILING-MACER-IGNORED"
+			}
+			if out2, err := m.MarshalCBOR(); err == nil && !bytes.Equal(out2, out1) {
+				if _, err := cose.VerifyMac0Message[[]byte](mc, out2, ext); err != nil {
+					return "EMITS-A-MESSAGE-NOBODY-AUTHENTICATED " + hx(out2)
+				}
+			}
+			return "ok"
+		}
+		return "bad-op"
 	case "msg.resign":
 		// msg.resign <ext> <msg> | <key> [| <key>…]: a COSE_Sign that was decoded is signed again by its signers and
 		// encoded.  Specification (C04): every Sig_structure the signers were handed is the RFC 9052 structure of the
